@@ -62,6 +62,13 @@ Sigs(e) ==
         \* documented defaults: 1920x1080, 90 kHz media timescale, 2-second fragments; Opus is always 48 kHz
         (IF e.frag_timescale # 90000 \/ e.frag_duration_ms # 2000 \/ e.frag_w # 1920 \/ e.frag_h # 1080 THEN {VSig("Defaults", "FragmentConfig", "value")} ELSE {})
         \cup (IF e.opus_rate # 48000 THEN {VSig("Defaults", "OPUS_SAMPLE_RATE", "value")} ELSE {})
+    ELSE IF e.f = "constants" THEN
+        \* ITU-T H.264 Table 7-1, H.265 Table 7-1, AV1 section 6.2.2; the default parameter sets are NAL units of the right type
+        (IF e.h264 # << 1, 5, 7, 8 >> THEN {VSig("Constants", "h264::nal_type", "value")} ELSE {})
+        \cup (IF e.h265 # << 16, 17, 18, 19, 20, 21, 32, 33, 34, 35, 36, 37, 38, 39, 40 >> THEN {VSig("Constants", "h265::nal_type", "value")} ELSE {})
+        \cup (IF e.obu # << 1, 2, 3, 4, 5, 6, 7, 8, 15 >> THEN {VSig("Constants", "av1::obu_type", "value")} ELSE {})
+        \cup (IF e.default_sps = << >> \/ e.default_sps[1] % 32 # 7 \/ e.default_pps = << >> \/ e.default_pps[1] % 32 # 8
+              THEN {VSig("Constants", "h264::DEFAULT_SPS/PPS", "nal-type")} ELSE {})
     ELSE IF e.f = "vcodec_fromstr" THEN
         (IF e.ok # (e.s \in VCodecNames) THEN {VSig("FromStr", "VideoCodec", IF e.ok THEN "accepts-unknown" ELSE "rejects-known")} ELSE {})
         \cup (IF e.ok /\ ~e.roundtrip THEN {VSig("FromStr", "VideoCodec", "display-does-not-parse-back")} ELSE {})
